@@ -39,7 +39,8 @@ MANIFEST = dict(
           "foreign-model rejections change nothing. A generated table of every list-valued relation of every registered "
           "class carries a kernel-checked obligation that its accessor kind is covered. Tied to /repo by per-step "
           "comparison of mirror / fresh / reloaded views with a Python list on real relations and an element-by-element "
-          "frame comparison of the rest of the model."),
+          "frame comparison of the rest of the model."
+          ' Every list operation is additionally predicted over the real tree by the accessor model (Model/Accessor.lean), and a kernel-checked obligation over the generated table shows every writable relation of every registered class is of an implemented (or delegating) kind; the monitor compares list in hand, fresh view, stored attribute and reloaded model with the Python list.'),
     design_ref="§6 C08",
     note=("Trusted: Lean kernel; lxml child-list semantics; descriptor table translator gen_descriptors.py. "
           "Item assignment on containment lists is a recorded known finding (see known_findings.jsonl) unless repaired."),
